@@ -39,32 +39,32 @@ type ioOp struct {
 }
 
 type ioObj struct {
-	d      *ioDriver
-	name   string
-	kind   string // tcp acc fifo-r fifo-w pkt lst adp reg
-	fdo    sonic.FileDescriptor
-	pkt    sonic.PacketConn
-	lst    sonic.Listener
-	rawfd  int
-	peer   int // raw peer descriptor, -1 when closed
-	peers  []int
-	port   int // pkt: sonic side port; lst: listening port
-	addr   [4]byte
-	pport  int // pkt: peer port
-	closed bool
-	broken bool // descriptor closed underneath
-	full   bool // the send buffer was filled by the harness: writes would-block until the peer drains
+	d       *ioDriver
+	name    string
+	kind    string // tcp acc fifo-r fifo-w pkt lst adp reg
+	fdo     sonic.FileDescriptor
+	pkt     sonic.PacketConn
+	lst     sonic.Listener
+	rawfd   int
+	peer    int // raw peer descriptor, -1 when closed
+	peers   []int
+	port    int // pkt: sonic side port; lst: listening port
+	addr    [4]byte
+	pport   int // pkt: peer port
+	closed  bool
+	broken  bool   // descriptor closed underneath
+	full    bool   // the send buffer was filled by the harness: writes would-block until the peer drains
 	pholdID string // identity of that placeholder (to close it at teardown if the library left it open)
-	phold  bool // ... and its number re-occupied by an inert placeholder (an eventfd), so that nothing else can take it
-	rd, wr *ioOp
-	sent   int // bytes the peer has written towards the object
-	got    int // bytes delivered by read callbacks
-	wrote  int // bytes the object's writes reported
-	last   string
-	keep   []any
-	rearm  bool // next cancellation callback re-issues the operation
-	ops    int  // completions delivered on this object
-	eof    bool // the peer half-closed, closed or reset: reads terminate
+	phold   bool   // ... and its number re-occupied by an inert placeholder (an eventfd), so that nothing else can take it
+	rd, wr  *ioOp
+	sent    int // bytes the peer has written towards the object
+	got     int // bytes delivered by read callbacks
+	wrote   int // bytes the object's writes reported
+	last    string
+	keep    []any
+	rearm   bool // next cancellation callback re-issues the operation
+	ops     int  // completions delivered on this object
+	eof     bool // the peer half-closed, closed or reset: reads terminate
 }
 
 type ioTimer struct {
